@@ -11,6 +11,7 @@ def run(tier):
     specs = [dict(module="semiring_" + s, cfg="semiring_" + s if tier == "quick" else "semiring_%s_deep" % s,
                   limit=LIMIT[tier]) for s in SEMIRINGS]
     specs.append(dict(module="mixed_contraction", limit=4500 if tier == "quick" else None))
+    specs.append(dict(module="negred"))
     rp = replay.run_many("harness.modes:c08", specs, parallel=4)
     out.add_replay(rp, "termmachine")
     # implementation-shaped model of the optimizer's path loop: every path, forced onto the code
